@@ -8,6 +8,7 @@ open Rie.SM
 @[simp] theorem emit_resv (s : State) (e : String) : (s.emit e).resv = s.resv := rfl
 @[simp] theorem emit_rt (s : State) (e : String) : (s.emit e).rt = s.rt := rfl
 @[simp] theorem emit_agents (s : State) (e : String) : (s.emit e).agents = s.agents := rfl
+@[simp] theorem emitEv_agents (s : State) (k : EvKind) (r : String) : (s.emitEv k r).agents = s.agents := rfl
 @[simp] theorem emit_queue (s : State) (e : String) : (s.emit e).queue = s.queue := rfl
 @[simp] theorem emit_flights (s : State) (e : String) : (s.emit e).flights = s.flights := rfl
 @[simp] theorem emit_timers (s : State) (e : String) : (s.emit e).timers = s.timers := rfl
@@ -15,6 +16,7 @@ open Rie.SM
 @[simp] theorem emit_invFlow (s : State) (e : String) : (s.emit e).invFlow = s.invFlow := rfl
 @[simp] theorem emit_out (s : State) (e : String) : (s.emit e).out = s.out ++ [.line e] := rfl
 @[simp] theorem emit_outs (s : State) (e : String) : (s.emit e).outs = s.outs ++ [e] := by simp [State.outs, Out.str]
+@[simp] theorem emitEv_outs (s : State) (k : EvKind) (r : String) : (s.emitEv k r).outs = s.outs ++ [Out.str (.ev k r)] := by simp [State.outs, State.emitEv]
 @[simp] theorem emit_procs (s : State) (e : String) : (s.emit e).procs = s.procs := rfl
 @[simp] theorem emit_orch (s : State) (e : String) : (s.emit e).orch = s.orch := rfl
 @[simp] theorem emit_crashed (s : State) (e : String) : (s.emit e).crashed = s.crashed := rfl
